@@ -9,7 +9,10 @@ rsync -a --delete --exclude .git "$REPO"/ "$D/m/"
 rm -rf "$D/m/verifh" "$D/m/testdata/rapid"
 mkdir -p "$D/m/verifh"
 cp /verif/harness/verifh/*.go "$D/m/verifh/"
-cp /verif/harness/geom/*.go "$D/m/internal/geom/" 2>/dev/null || true
+cp /verif/harness/geom/*.go "$D/m/internal/geom/"
+# the geometry harness lives in package geom (it needs unexported functions); it shares the infrastructure files
+sed 's/^package verifh$/package geom/' /verif/harness/verifh/infra_test.go > "$D/m/internal/geom/zz_verif_infra_test.go"
+sed 's/^package verifh$/package geom/' /verif/harness/verifh/replay_test.go > "$D/m/internal/geom/zz_verif_replay_test.go"
 cd "$D/m"
 if ! grep -q 'pgregory.net/rapid' go.mod; then
   printf '\nrequire pgregory.net/rapid v1.3.0\n' >> go.mod
